@@ -451,6 +451,10 @@ pub fn run_c15(out: &mut Out, seed: u64, thorough: bool) {
             run_line(out, &mut s, &format!("edges {}", r));
             // the property as a relation on the real machine: reloaded here vs loaded into a new machine, edge by edge
             run_line(out, &mut s, &format!("{} 16 255 {} 60", if (case / 2) % 3 == 1 { "spec.resetasm" } else { "spec.reload" }, hexs(&second)));
+            if r % 3 == 0 {
+                // the same relation with both machines stepped instruction-wise (step mode must not matter either)
+                run_line(out, &mut s, &format!("spec.reloadasm 16 255 {} 12", hexs(&second)));
+            }
             match (case / 2) % 3 {
                 0 => { run_line(out, &mut s, &format!("load 16 255 {}", hexs(&second))); }
                 1 => { run_line(out, &mut s, "masterreset"); run_line(out, &mut s, &format!("load 16 255 {}", hexs(&second))); }
